@@ -8,8 +8,10 @@
    abstraction sm2P256FromBig a = a mod P, sm2P256Mul/Square/Add/Sub are * + - mod P (the Montgomery
    factor cancels: Mul computes X*Y*R^-1 on limb values, i.e. x*y on represented values), and
    sm2P256Scalar(b,k) multiplies by the value represented by sm2P256Factor[k].  That the 9-limb code
-   (sm2P256Mul, Square, ReduceDegree, ReduceCarry, Add, Sub, FromBig) commutes with fe_of_limbs is NOT
-   proved; it is tied by the white-box differential driver harness/cmd/c03w.
+   (sm2P256Mul, Square, ReduceDegree, ReduceCarry, Add, Sub, FromBig) commutes with fe_of_limbs is PROVED
+   in EC/LimbRefine.v over the mechanically translated limb code (Gen/P256Limbs.v, EC/Limb*.v), and the point
+   functions, selections and scalar multiplications on limbs are proved equal to this model in EC/LimbPoint.v,
+   LimbScalar.v, LimbScalarMult.v, LimbAPI.v; the white-box driver harness/cmd/c03w ties both to /repo.
    Tables (sm2P256Precomputed, sm2P256Factor) enter through fe_of_limbs of the generated limb lists.
 
    The model is a Section over the constants of the curve object so that proofs can treat them as
